@@ -72,6 +72,11 @@ pub struct RrScript {
     pub req_comp: Option<super::e2e::CompKind>,
     #[serde(default)]
     pub rep_comp: Option<super::e2e::CompKind>,
+    /// a further requestor on the topic that is not this library (a bridge, another
+    /// implementation, a hostile peer): it sends this many requests that already carry a `cid`
+    /// header naming one of the library requestors, with request ids the library streams use too
+    #[serde(default)]
+    pub intruder_requests: usize,
 }
 
 pub fn gen_script(rng: &mut Rng) -> RrScript {
@@ -119,7 +124,7 @@ pub fn gen_script(rng: &mut Rng) -> RrScript {
     use super::e2e::CompKind;
     let pick_comp = |rng: &mut Rng| -> Option<CompKind> { if rng.chance(1, 2) { None } else { Some(*rng.pick(&[CompKind::Gzip, CompKind::Zlib, CompKind::Zstd, CompKind::Lz4, CompKind::BrotliGeneric, CompKind::BrotliText])) } };
     let (req_comp, rep_comp) = (pick_comp(rng), pick_comp(rng));
-    RrScript { net: mild_net(rng), rt_seed: rng.next(), n_clients, streams, timeout_ms, replier_first: rng.chance(1, 2), library_replier, outage_at_ms, bincode: rng.chance(1, 3), req_comp, rep_comp }
+    RrScript { net: mild_net(rng), rt_seed: rng.next(), n_clients, streams, timeout_ms, replier_first: rng.chance(1, 2), library_replier, outage_at_ms, bincode: rng.chance(1, 3), req_comp, rep_comp, intruder_requests: if rng.chance(1, 4) { rng.usize(5, 40) } else { 0 } }
 }
 
 #[derive(Clone, Debug)]
@@ -306,6 +311,41 @@ where
     if !sc.replier_first {
         start_replier().await?;
     }
+    if sc.intruder_requests > 0 {
+        let gi = world.new_group();
+        let (ep, conn) = world.raw_trusted(gi, None).await?;
+        let t = TopicName::try_from(topic_s).map_err(|e| anyhow!("{e}"))?;
+        let mut st = raw_open(&conn, Frame::RegisterRequestor(selium_protocol::RequestorPayload { topic: t })).await?;
+        let _ = st.next().await;
+        let n = sc.intruder_requests;
+        let n_streams = sc.streams.len().max(1);
+        let codec = codec.clone();
+        let req_comp = sc.req_comp;
+        tokio::task::spawn_local(ACTOR.scope(gi, async move {
+            let _keep = (ep, conn);
+            tokio::time::sleep(Duration::from_millis(1000)).await;
+            for j in 0..n {
+                let mut body = codec.encode(format!("q{}:intruder", 900_000 + j)).unwrap_or_default();
+                if let Some(k) = req_comp {
+                    body = make_comp(k, Level::Default).compress(body).unwrap_or_default();
+                }
+                let mut h = HashMap::new();
+                h.insert("req_id".to_string(), format!("{}", j % 6));
+                h.insert("cid".to_string(), format!("{}", j % n_streams));
+                if st.send(Frame::Message(MessagePayload { headers: Some(h), message: body })).await.is_err() {
+                    break;
+                }
+                // its own replies are read and dropped
+                let _ = tokio::time::timeout(Duration::from_millis(25), st.next()).await;
+            }
+            loop {
+                match tokio::time::timeout(Duration::from_secs(30), st.next()).await {
+                    Ok(Some(Ok(_))) => {}
+                    _ => break,
+                }
+            }
+        }));
+    }
     tokio::time::sleep(Duration::from_millis(1000)).await;
     // calls
     let results: Rc<RefCell<Vec<CallResult>>> = Rc::new(RefCell::new(vec![]));
@@ -370,6 +410,9 @@ pub fn execute(prop: &str, sc: &RrScript, opts: &ExecOpts) -> Outcome {
             if lost {
                 out.inconclusive = true;
                 out.probe("connection_lost_during_no_loss_family");
+            }
+            if sc.intruder_requests > 0 {
+                out.fault_n("requests_with_forged_cid_from_another_requestor", sc.intruder_requests as u64);
             }
             if outage {
                 out.fault("requestor_connections_closed_mid_run");
@@ -558,6 +601,11 @@ impl Family for ReqRepE2e {
             c.net.loss_ppm = 0;
             c.net.dup_ppm = 0;
             c.net.jitter_ms = 0;
+            out.push(c);
+        }
+        if sc.intruder_requests > 0 {
+            let mut c = sc.clone();
+            c.intruder_requests = 0;
             out.push(c);
         }
         for si in 0..sc.streams.len() {
